@@ -65,6 +65,11 @@ def service_files(ns: str) -> typing.Dict[str, str]:
         f"{ns}/430.Svc.1.0.dsdl": "uint8 A = 3\nuint8 x\n@sealed\n---\nfloat32 B = 1.0/3.0\nint8[<=4] y\n@extent 64\n",
         f"{ns}/Svu.1.1.dsdl": "@union\nuint8 a\nint13[<=2] b\n@sealed\n---\n@extent 16\n",
         f"{ns}/7509.Msg.2.3.dsdl": "uint16 KMAX = 65535\nbool[<=7] flags\nuint8[2] pair\n@extent 256\n",
+        # the extreme port identifiers of both kinds (0 is falsy: a truthiness test instead of has_fixed_port_id drops it)
+        f"{ns}/0.Zero.1.0.dsdl": "uint8 x\n@sealed\n",
+        f"{ns}/0.ZeroSvc.1.0.dsdl": "uint8 x\n@sealed\n---\nuint8[<=2] y\n@sealed\n",
+        f"{ns}/8191.MaxSub.1.0.dsdl": "@union\nuint8 a\nbool b\n@extent 16\n",
+        f"{ns}/511.MaxSvc.1.0.dsdl": "@sealed\n---\nuint8 x\n@extent 8\n",
     }
 
 
@@ -95,6 +100,7 @@ def expectations(t: pydsdl.CompositeType, name: str) -> typing.Dict[str, typing.
 
 
 _PORT_OWNER: typing.Dict[int, pydsdl.CompositeType] = {}
+_SERVICE_FILE_NAMES = {k.split("/")[-1].split(".")[-4] for k in service_files("x")}
 
 
 def composites_of(types: typing.Sequence[pydsdl.CompositeType]) -> typing.List[typing.Tuple[pydsdl.CompositeType, str, str, str]]:
@@ -215,7 +221,7 @@ def _work(job: tuple) -> dict:
             types = pydsdl.read_namespace(str(sh.src / sh.ns), [], allow_unregulated_fixed_port_id=True)
             sh.all_types = list(types)
             sh.models = {t.short_name: t for t in types}
-        static_types = [t for t in sh.all_types if t.short_name in {d.name for d in sh.mains} or t.short_name in ("Svc", "Svu", "Msg")]
+        static_types = [t for t in sh.all_types if t.short_name in {d.name for d in sh.mains} or t.short_name in _SERVICE_FILE_NAMES]
         items = composites_of(static_types)
         for c in cfgs:
             if c.lang == "py":
@@ -233,7 +239,7 @@ def _work(job: tuple) -> dict:
                         if key == "EXTENT":
                             got = str(getattr(obj, "_EXTENT_BYTES_"))
                         elif key == "PORT":
-                            got = str(getattr(obj, "_FIXED_PORT_ID_"))
+                            got = str(getattr(obj, "_FIXED_PORT_ID_", "<not exported>"))
                         elif key == "HAS_PORT":
                             got = "1" if getattr(obj, "_FIXED_PORT_ID_", None) is not None else "0"
                         elif key.startswith("K:"):
